@@ -14,7 +14,7 @@ Theorem C10_soi_cases : forall a b T, iterated_exp_integral a b T (soi_core_x RO
 Proof. exact soi_cases. Qed.
 Print Assumptions C10_soi_cases.
 
-(* The code selects the cases by |x dt| > thr2 (1e-8 since c3a36ea).  Where both denominators are regular (zero, or
+(* The code selects the cases by |x dt| > thr2 (1e-5 since a13e2c1; 1e-8 in c3a36ea).  Where both denominators are regular (zero, or
    larger than thr2/T) its entry (i,j,m,n), a = Omega_ij - w, b = w + Omega_mn, IS that integral ... *)
 Theorem C10_soi_entry_integral : forall thr2 w evi evj evm evn T, 0 <= thr2 ->
   regular thr2 (w + (evm - evn)) T -> regular thr2 ((evi - evj) - w) T ->
@@ -22,11 +22,12 @@ Theorem C10_soi_entry_integral : forall thr2 w evi evj evm evn T, 0 <= thr2 ->
 Proof. exact soi_entry_integral. Qed.
 Print Assumptions C10_soi_entry_integral.
 
-(* ... and for ALL a, b and T >= 0 it is within thr2 T^2 (1/2 + thr2/4) of it, componentwise (exact arithmetic). *)
+(* ... and for ALL a, b and T >= 0 it is within thr2^2 T^2 (3/8 + thr2/4) of it, componentwise (exact arithmetic;
+   second-order remainders of the first-order terms the code keeps in its truncated branches). *)
 Theorem C10_soi_bound : forall thr2 a b T, 0 <= thr2 -> 0 <= T ->
   exists z, iterated_exp_integral a b T z /\
-    Rabs (fst (soi_core RO thr2 a b (a + b) T) - fst z) <= thr2 * (T * T) * (1/2 + thr2/4) /\
-    Rabs (snd (soi_core RO thr2 a b (a + b) T) - snd z) <= thr2 * (T * T) * (1/2 + thr2/4).
+    Rabs (fst (soi_core RO thr2 a b (a + b) T) - fst z) <= thr2 * thr2 * (T * T) * (3/8 + thr2/4) /\
+    Rabs (snd (soi_core RO thr2 a b (a + b) T) - snd z) <= thr2 * thr2 * (T * T) * (3/8 + thr2/4).
 Proof. exact soi_bound_integral. Qed.
 Print Assumptions C10_soi_bound.
 
@@ -57,13 +58,13 @@ Print Assumptions C10_same_plus_adjoint_seg.
 (* F2_ab,kl + conj(F2_ba,lk) = conj(B_ak) B_bl (generalized first-order filter function), exact arithmetic,
    Hermitian noise operators and basis, no first-order entry on the Taylor branch unless its argument is 0. *)
 Theorem C10_F2_plus_adjoint : forall d thr thr2 omega basis nopers evs Vs Qs ncoeffs dts ts a b k l o,
-  0 <= thr2 <= thr ->
+  0 <= thr -> 0 <= thr2 ->
   (forall N, In N nopers -> fherm d (toF N)) -> (forall Ck, In Ck basis -> fherm d (toF Ck)) ->
   length evs = length dts -> length Vs = length dts ->
   (length dts <= length Qs)%nat -> (length dts <= length ts)%nat -> length ncoeffs = length nopers ->
   (a < length nopers)%nat -> (b < length nopers)%nat -> (k < length basis)%nat -> (l < length basis)%nat ->
   (o < length omega)%nat ->
-  no_taylor d omega thr evs dts o ->
+  no_taylor d omega thr evs dts o -> no_taylor d omega thr2 evs dts o ->
   let F2 := second_order_ff RO d thr thr2 evs Vs Qs omega basis nopers ncoeffs dts ts (None, None) in
   let Bm := control_matrix_from_scratch RO d thr evs Vs Qs omega basis nopers ncoeffs dts ts in
   cadd' (a5get RO F2 a b k l o) (cconj' (a5get RO F2 b a l k o)) =
@@ -104,12 +105,12 @@ Proof. exact cached_valid. Qed.
    segment, D_g is the nested time-ordered integral of the segment's time-domain control matrix and step_g
    its Fourier integral times e^{i w t_g}. *)
 Theorem C10_F2_assembly_partial : forall d thr thr2 omega basis nopers evs Vs Qs ncoeffs dts ts a b k l o,
-  0 <= thr2 <= thr ->
+  0 <= thr -> 0 <= thr2 ->
   length evs = length dts -> length Vs = length dts ->
   (length dts <= length Qs)%nat -> (length dts <= length ts)%nat -> length ncoeffs = length nopers ->
   (a < length nopers)%nat -> (b < length nopers)%nat -> (k < length basis)%nat -> (l < length basis)%nat ->
   (o < length omega)%nat ->
-  no_taylor d omega thr evs dts o ->
+  no_taylor d omega thr evs dts o -> no_taylor d omega thr2 evs dts o ->
   let segs := fresh_segs d thr omega basis nopers evs Vs Qs ts dts (transpose_coeffs RO (length dts) ncoeffs) in
   a5get RO (second_order_ff RO d thr thr2 evs Vs Qs omega basis nopers ncoeffs dts ts (None, None)) a b k l o =
     so_spec d thr2 (length nopers) (length basis) (length omega) omega a b k l o false segs 0c /\
@@ -123,14 +124,14 @@ Print Assumptions C10_F2_assembly_partial.
    for every number of segments, durations >= 0 (zero-length segments included), every frequency that keeps the
    first-order integrals off their Taylor branch (exact resonances included). *)
 Theorem C10_F2_assembly : forall d thr thr2 omega basis nopers evs Vs Qs ncoeffs dts a b k l o,
-  0 <= thr2 <= thr ->
+  0 <= thr -> 0 <= thr2 ->
   (forall N, In N nopers -> fherm d (toF N)) -> (forall Ck, In Ck basis -> fherm d (toF Ck)) ->
   length evs = length dts -> length Vs = length dts -> (length dts <= length Qs)%nat ->
   length ncoeffs = length nopers ->
   (forall dt, In dt dts -> 0 <= dt) ->
   (a < length nopers)%nat -> (b < length nopers)%nat -> (k < length basis)%nat -> (l < length basis)%nat ->
   (o < length omega)%nat ->
-  no_taylor d omega thr evs dts o ->
+  no_taylor d omega thr evs dts o -> no_taylor d omega thr2 evs dts o ->
   let ts := times RO dts in
   let segs := fresh_segs d thr omega basis nopers evs Vs Qs ts dts (transpose_coeffs RO (length dts) ncoeffs) in
   let w := vg RO omega o in
@@ -143,31 +144,33 @@ Theorem C10_F2_assembly : forall d thr thr2 omega basis nopers evs Vs Qs ncoeffs
 Proof. exact F2_assembly. Qed.
 Print Assumptions C10_F2_assembly.
 
-(* Amplification of evaluation errors: the case formulas only divide by denominators with |x T| > thr2, so buffers
-   known to within u T move the value by at most 2 u T^2 / thr2 (the second term of the error budget of an entry). *)
+(* Amplification of evaluation errors: the case formulas only divide by denominators with |x T| > thr2 and multiply
+   the slope by an EdE with |EdE T| <= thr2, so buffers known to within u T move the case-1 value by at most
+   2 u T^2 / thr2 and the case-2 value by at most u T^2 (4/thr2 + 1/2) (second term of the error budget of an entry). *)
 Theorem C10_case1_amplification : forall thr2 u T b (f1 f2 f1' f2' : Cx), 0 < thr2 -> 0 <= T -> 0 <= u -> thr2 < Rabs (b * T) ->
   Rabs (fst f1' - fst f1) <= u * T -> Rabs (snd f1' - snd f1) <= u * T ->
   Rabs (fst f2' - fst f2) <= u * T -> Rabs (snd f2' - snd f2) <= u * T ->
   Rabs (fst (case1_of f1' f2' b) - fst (case1_of f1 f2 b)) <= 2 * u * (T * T) / thr2 /\
   Rabs (snd (case1_of f1' f2' b) - snd (case1_of f1 f2 b)) <= 2 * u * (T * T) / thr2.
 Proof. exact case1_amplification. Qed.
-Theorem C10_case2_amplification : forall thr2 u T a (f1 ex f1' ex' : Cx), 0 < thr2 -> 0 <= T -> 0 <= u -> thr2 < Rabs (a * T) ->
+Theorem C10_case2_amplification : forall thr2 u T a b (f1 ex f1' ex' : Cx), 0 < thr2 -> 0 <= T -> 0 <= u ->
+  thr2 < Rabs (a * T) -> Rabs (b * T) <= thr2 ->
   Rabs (fst f1' - fst f1) <= u * T -> Rabs (snd f1' - snd f1) <= u * T ->
   Rabs (fst ex' - fst ex) <= u * T -> Rabs (snd ex' - snd ex) <= u * T ->
-  Rabs (fst (case2_of f1' ex' a) - fst (case2_of f1 ex a)) <= 2 * u * (T * T) / thr2 /\
-  Rabs (snd (case2_of f1' ex' a) - snd (case2_of f1 ex a)) <= 2 * u * (T * T) / thr2.
+  Rabs (fst (case2_of f1' ex' a b T) - fst (case2_of f1 ex a b T)) <= u * (T * T) * (4 / thr2 + 1 / 2) /\
+  Rabs (snd (case2_of f1' ex' a b T) - snd (case2_of f1 ex a b T)) <= u * (T * T) * (4 / thr2 + 1 / 2).
 Proof. exact case2_amplification. Qed.
 (* ... where case1_of / case2_of applied to the exact buffers are the model's case formulas *)
 Theorem C10_soi_cases_of_buffers : forall (m1 m2 : bool) a b ab T,
   soi_cases_of RO m1 m2 a b ab T =
   cite RO m1 (case1_of (frc RO a T) (frc RO ab T) b)
-       (cite RO m2 (case2_of (frc RO a T) (cscal RO T (cexp' (a * T))) a) (T * T / 2, 0)).
+       (cite RO m2 (case2_of (frc RO a T) (cscal RO T (cexp' (a * T))) a b T) (T * T / 2, T * T * T * (a / 3 + b / 6))).
 Proof. exact soi_cases_of_buffers. Qed.
-Print Assumptions C10_case1_amplification.
+Print Assumptions C10_case2_amplification.
 
 (* Without any condition on the second-order denominators: the code's model (threshold thr2) against the
    exact-selection model (thr2 = 0), and hence against the double integral, within
-   F2_eps = sum_g 2 thr2 dt_g^2 (1/2 + thr2/4) A_g[a,k] A_g[b,l],  A_g[a,k] = sum_ij |X^g_ak(i,j)|. *)
+   F2_eps = sum_g 2 thr2^2 dt_g^2 (3/8 + thr2/4) A_g[a,k] A_g[b,l],  A_g[a,k] = sum_ij |X^g_ak(i,j)|. *)
 Theorem C10_F2_bound : forall d thr thr2 omega basis nopers evs Vs Qs ncoeffs dts ts a b k l o,
   0 <= thr2 ->
   length evs = length dts -> length Vs = length dts ->
@@ -226,7 +229,7 @@ Proof. exact time_scaling_F2. Qed.
 Print Assumptions C10_time_scaling_F2.
 
 (* ... with masks in absolute units (|x| > thr2: the seeded mutant, the shape of the first-order defect 0b2b5e4)
-   the law fails: thr2 = 1e-8, a = 0, b = 1, T = 1, time unit x 1e9 *)
+   the law fails: thr2 = 1e-8, a = 0, b = 4, T = 1, time unit x 1e9 *)
 Theorem C10_time_scaling_soi_refuted_absolute_mask :
   exists thr2 a b T lam, 0 < lam /\ 0 < thr2 /\
     soi_core_absmask thr2 (a / lam) (b / lam) ((a + b) / lam) (lam * T)
@@ -258,15 +261,15 @@ Definition ex_X : Mat (T:=R) := [[(0,0); (1,0)]; [(1,0); (0,0)]].
 Definition ex_I : Mat (T:=R) := [[(1,0); (0,0)]; [(0,0); (1,0)]].
 
 Example C10_hypotheses_satisfiable :
-  let d := 2%nat in let thr := / 10000000 in let thr2 := / 100000000 in
+  let d := 2%nat in let thr := / 10000000 in let thr2 := / 100000 in
   let omega := [1] in let basis := [ex_X] in let nopers := [ex_Z] in
   let evs := [[0; 1]] in let Vs := [ex_I] in let Qs := [ex_I; ex_I] in
   let ncoeffs := [[1]] in let dts := [1] in let ts := [0; 1] in
-  0 <= thr2 <= thr /\
+  0 <= thr /\ 0 <= thr2 /\
   (forall N, In N nopers -> fherm d (toF N)) /\ (forall Ck, In Ck basis -> fherm d (toF Ck)) /\
   length evs = length dts /\ length Vs = length dts /\
   (length dts <= length Qs)%nat /\ (length dts <= length ts)%nat /\ length ncoeffs = length nopers /\
-  no_taylor d omega thr evs dts 0 /\ (forall dt, In dt dts -> 0 <= dt) /\
+  no_taylor d omega thr evs dts 0 /\ no_taylor d omega thr2 evs dts 0 /\ (forall dt, In dt dts -> 0 <= dt) /\
   valid_interm d thr omega basis nopers evs Vs Qs ncoeffs dts ts
     (cached_intermediates RO d thr evs Vs Qs omega basis nopers ncoeffs dts ts).
 Proof.
@@ -279,19 +282,26 @@ Proof.
     + left. ring.
     + right. rewrite Rabs_right; lra.
     + right. rewrite Rabs_right; lra.
+  - intros ev dt [E|[]] m n Hm Hn. inversion E; subst. unfold vg, vget.
+    destruct m as [|[|]], n as [|[|]]; try lia; simpl.
+    + right. rewrite Rabs_right; lra.
+    + left. ring.
+    + right. rewrite Rabs_right; lra.
+    + right. rewrite Rabs_right; lra.
   - intros dt [<-|[]]. lra.
   - right; reflexivity.
   - right; reflexivity.
 Qed.
 
-(* the extracted thresholds (1e-8 for the case selection, 1e-7 for the first-order integral) satisfy 0 <= thr2 <= thr *)
+(* the extracted thresholds: 1e-7 (first-order integral) <= 1e-5 (case selection of the second-order integral), so
+   "no denominator in (0, 1e-5/dt]" (no_taylor thr2) implies the first-order condition (no_taylor thr) *)
 Example C10_thresholds_ordered :
-  0 <= Rdya (fst soi_thr) (snd soi_thr) <= Rdya (fst foi_thr) (snd foi_thr).
+  0 <= Rdya (fst foi_thr) (snd foi_thr) <= Rdya (fst soi_thr) (snd soi_thr).
 Proof.
   unfold soi_thr, foi_thr; simpl. unfold Rdya. simpl powerRZ. split.
   - apply Rmult_le_pos. lra. left. apply Rinv_0_lt_compat. lra.
-  - apply Rmult_le_reg_r with (2 ^ 78). apply pow_lt; lra.
+  - apply Rmult_le_reg_r with (2 ^ 73). apply pow_lt; lra.
     rewrite Rmult_assoc, Rinv_l by (apply pow_nonzero; lra).
-    replace (2 ^ 78) with (2 ^ 73 * 2 ^ 5) by (rewrite <- pow_add; reflexivity).
-    rewrite <- Rmult_assoc, (Rmult_assoc _ (/ 2 ^ 73)), Rinv_l by (apply pow_nonzero; lra). simpl. lra.
+    replace (2 ^ 73) with (2 ^ 69 * 2 ^ 4) by (rewrite <- pow_add; reflexivity).
+    rewrite <- Rmult_assoc, (Rmult_assoc _ (/ 2 ^ 69)), Rinv_l by (apply pow_nonzero; lra). simpl. lra.
 Qed.
